@@ -45,11 +45,12 @@ class C16(Scenario):
             "whose SparselyBin / Categorize / Bin nodes were given one unfilled template object. Non-trivial: the shared "
             "object has >= 2 nodes or a history, and >= 2 fill attempts. Distinct: hash of (pattern, S shape, history, "
             "attempt kinds).")
-    assumptions = ["only the public constructors install the object (no attribute surgery after construction)",
+    assumptions = ["the object is installed through the public constructors, or by assigning it to the public child attributes "
+                   "(underflow / overflow / nanflow / cut / numerator / denominator) of already constructed containers",
                    "positions whose constructor copies its argument (Bin flows and values, Fraction value, sparse value "
                    "templates) do not share an object afterwards and are control cases"]
     expected_faults = ["shared_node"]
-    expected_probes = ["shared_prefilled", "shared_used_in_other_tree", "shared_numpy_attempt", "control_shared_template", "parent_prefilled", "explicit_bins_position"]
+    expected_probes = ["shared_prefilled", "shared_used_in_other_tree", "shared_numpy_attempt", "control_shared_template", "parent_prefilled", "explicit_bins_position", "assigned_slot"]
 
     # ------------------------------------------------------------------ generation
     def generate(self, rng, tier, profile):
@@ -62,7 +63,7 @@ class C16(Scenario):
         a = ref("S") if shared else S
         b = ref("S") if shared else copy.deepcopy(S)
         pat = t.pick(["siblings", "siblings", "cousins-select", "cousins-coll", "uncle", "own-child", "deep", "explicit-bins", "explicit-bins",
-                      "prefilled-parents", "prefilled-parents"])
+                      "prefilled-parents", "prefilled-parents", "assigned-slot", "assigned-slot"])
         kind = t.pick(["Label", "UntypedLabel", "Index", "Branch"])
         other = {"p": "Count"}
         defs = {"S": S}
@@ -94,6 +95,38 @@ class C16(Scenario):
             else:
                 pairs[slots[0]][1] = a
                 tree = {"p": "Branch", "values": [{"p": kindb, "explicit": pairs, "q": Q}, b] if t.chance(0.5) else [b, {"p": kindb, "explicit": pairs, "q": Q}]}
+        elif pat == "assigned-slot":
+            # the object is put into public child attributes (flows, cut, numerator ...) of already constructed containers:
+            # constructors copy these arguments, plain attribute assignment does not
+            inner = t.pick([None, {"p": "Bin", "num": 2, "low": 0.0, "high": 2.0, "q": Q, "value": None, "underflow": None, "overflow": None, "nanflow": None},
+                            {"p": "SparselyBin", "binWidth": 1.0, "origin": 0.0, "q": Q, "value": None, "nanflow": None}])
+
+            def holder():
+                k2 = t.pick(["Bin", "SparselyBin", "CentrallyBin", "IrregularlyBin", "Stack", "Stack", "Select", "Fraction"])
+                if k2 == "Bin":
+                    return {"p": "Bin", "num": 2, "low": 0.0, "high": 2.0, "q": Q, "value": inner, "underflow": None, "overflow": None, "nanflow": None}, \
+                        t.pick(["underflow", "overflow", "nanflow"])
+                if k2 == "SparselyBin":
+                    return {"p": "SparselyBin", "binWidth": 1.0, "origin": 0.0, "q": Q, "value": inner, "nanflow": None}, "nanflow"
+                if k2 == "CentrallyBin":
+                    return {"p": "CentrallyBin", "centers": [0.0, 1.0], "q": Q, "value": inner, "nanflow": None}, "nanflow"
+                if k2 == "IrregularlyBin":
+                    return {"p": "IrregularlyBin", "edges": [0.5], "q": Q, "value": inner, "nanflow": None}, "nanflow"
+                if k2 == "Stack":
+                    return {"p": "Stack", "thresholds": [0.5], "q": Q, "value": inner, "nanflow": None}, "nanflow"
+                if k2 == "Select":
+                    return {"p": "Select", "q": QC, "cut": None}, "cut"
+                return {"p": "Fraction", "q": QC, "value": None}, t.pick(["numerator", "denominator"])
+
+            (h1, a1), (h2, a2) = holder(), holder()
+            if t.chance(0.5):
+                tree = {"p": "Branch", "values": [h1, h2]}
+                assign = [[0, a1], [1, a2]]
+            else:
+                tree = {"p": "Branch", "values": [h1, b]}
+                assign = [[0, a1]] if shared else []
+            if not shared:
+                assign = []
         elif pat == "prefilled-parents":
             # two containers that each hold S once are valid on their own and get filled on their own first
             def parent(x):
@@ -147,7 +180,8 @@ class C16(Scenario):
             else:
                 steps.append({"op": "fillnumpy", "rows": [s.randrange(len(recs)) for _ in range(s.randint(1, 4))], "box": s.pick(["dict", "frame", "rec"]),
                               "weights": s.pick(["one", 0.5])})
-        return {"defs": defs, "tree": tree, "shared": shared, "pattern": pat, "records": [specmod.enc_record(r) for r in recs], "steps": steps}
+        return {"defs": defs, "tree": tree, "shared": shared, "pattern": pat, "records": [specmod.enc_record(r) for r in recs], "steps": steps,
+                "assign": assign if pat == "assigned-slot" else []}
 
     # ------------------------------------------------------------------ execution
     def run(self, case, w, R):
@@ -205,6 +239,9 @@ class C16(Scenario):
                         return  # e.g. Label type rule: nothing to test
                     raise self.violation(exc_site(o.exc)[0], "construct", "exception:%s" % type(o.exc).__name__, o.describe(), si)
                 tree = o.value
+                for idx, attr in case.get("assign", []):
+                    setattr(tree.values[idx], attr, S)
+                    w.bump("probe_assigned_slot")
                 w.put(2, tree)
             elif op in ("fill", "fillnumpy"):
                 if tree is None:
